@@ -725,11 +725,37 @@ impl HashColumn {
 		change: &Operation<Key, RcValue>,
 		log: &mut LogWriter,
 	) -> Result<PlanOutcome> {
-		let tables = self.tables.upgradable_read();
-		let reindex = self.reindex.upgradable_read();
+		let mut tables = self.tables.upgradable_read();
+		let mut reindex = self.reindex.upgradable_read();
 		let existing = Self::search_all_indexes(change.key(), &tables, &reindex, log)?;
 		if let Some((table, sub_index, existing_address)) = existing {
-			self.write_plan_existing(&tables, change, log, table, sub_index, existing_address)
+			let (value_address, sub_index) = match self.write_plan_existing(
+				&tables,
+				change,
+				log,
+				table,
+				sub_index,
+				existing_address,
+			)? {
+				(Some(outcome), _) => return Ok(outcome),
+				(None, Some(moved)) => moved,
+				(None, None) => return Ok(PlanOutcome::Written),
+			};
+			// The value moved to a new address: the current index needs an entry for it. If
+			// the chunk is full (possible when the key was found in an older index) the index
+			// has to grow first, exactly as for a new key.
+			let key = change.key();
+			let mut sub_index = sub_index;
+			let mut outcome = PlanOutcome::Written;
+			while let PlanOutcome::NeedReindex =
+				tables.index.write_insert_plan(key, value_address, sub_index, log)?
+			{
+				log::debug!(target: "parity-db", "{}: Index chunk full {}", tables.index.id, hex(key));
+				(tables, reindex) = Self::trigger_reindex(tables, reindex, self.path.as_path());
+				sub_index = None;
+				outcome = PlanOutcome::NeedReindex;
+			}
+			Ok(outcome)
 		} else {
 			match change {
 				Operation::Set(key, value) => {
@@ -759,6 +785,9 @@ impl HashColumn {
 		}
 	}
 
+	/// Returns `(Some(outcome), _)` when the operation is complete, `(None, Some((address,
+	/// sub_index)))` when the value moved and the current index needs an entry for `address`
+	/// (replacing the one at `sub_index` if given), `(None, None)` when the key was removed.
 	#[allow(clippy::too_many_arguments)]
 	fn write_plan_existing(
 		&self,
@@ -768,7 +797,7 @@ impl HashColumn {
 		index: &IndexTable,
 		sub_index: usize,
 		existing_address: Address,
-	) -> Result<PlanOutcome> {
+	) -> Result<(Option<PlanOutcome>, Option<(Address, Option<usize>)>)> {
 		let stats = if self.collect_stats { Some(&self.stats) } else { None };
 
 		let key = change.key();
@@ -782,17 +811,17 @@ impl HashColumn {
 			stats,
 			self.ref_counted,
 		)? {
-			(Some(outcome), _) => Ok(outcome),
+			(Some(outcome), _) => Ok((Some(outcome), None)),
 			(None, Some(value_address)) => {
 				// If it was found in an older index we just insert a new entry. Reindex won't
 				// overwrite it.
 				let sub_index = if index.id == tables.index.id { Some(sub_index) } else { None };
-				tables.index.write_insert_plan(key, value_address, sub_index, log)
+				Ok((None, Some((value_address, sub_index))))
 			},
 			(None, None) => {
 				log::trace!(target: "parity-db", "{}: Removing from index {}", tables.index.id, hex(key));
 				index.write_remove_plan(key, sub_index, log)?;
-				Ok(PlanOutcome::Written)
+				Ok((None, None))
 			},
 		}
 	}
